@@ -1,10 +1,10 @@
 package props
 
 import (
-	"unicode/utf8"
 	"encoding/json"
 	"fmt"
 	"strings"
+	"unicode/utf8"
 
 	"github.com/ipld/go-ipld-prime/node/basicnode"
 
